@@ -830,7 +830,7 @@ pub fn run_c08(args: &Args, rec: &mut Recorder) {
 
 pub fn run_c09(args: &Args, rec: &mut Recorder) {
     rec.rule = "evaluation = one merge of an internally consistent module B (every reference site of the frozen site table populated) into a module A with overlapping names; for every reference edge (b, site, t) of B whose referrer b was moved into the result (not an identical twin shared with A), the reference read from the element carrying b's marker at the same site must resolve to the element carrying t's marker. distinct_nontrivial = distinct (A,B) pairs by content hash".into();
-    rec.assumptions.push("identical twins (same name and content on both sides) are shared by definition and their references are not judged; references to conventional names (NO_COMPU_METHOD, NO_INPUT_QUANTITY, NO_INVERSE_TRANSFORMER, THIS.x) are not edges".into());
+    rec.assumptions.push("identical twins (same name and content on both sides) are shared by definition; their references are judged only for whether they designate an element with the content of B's target; references to conventional names (NO_COMPU_METHOD, NO_INPUT_QUANTITY, NO_INVERSE_TRANSFORMER, THIS.x) are not edges".into());
     let total: u64 = if args.thorough { 300_000 } else { 50_000 };
     let mut site_hits: BTreeMap<String, u64> = BTreeMap::new();
     run_cases(args, rec, total, crate::util::reset_budget, |rng, _case, rec| {
@@ -913,6 +913,37 @@ pub fn run_c09(args: &Args, rec: &mut Recorder) {
             };
             if !judged {
                 rec.bump("edges.not_judged(shared or not moved)");
+                // An element of B that is shared with A's identical twin keeps A's text. Its reference
+                // still has to designate the representative of *B's* target: if that target exists in A
+                // with different content (B's is added under a fresh name), the shared twin points at
+                // A's variant and B's reference structure is lost.
+                if e.ctx.rmarker != 0 && !matches!(e.ctx.ns, Ns::Func | Ns::Grp | Ns::Crit) {
+                    let cp = edges_r
+                        .iter()
+                        .find(|x| x.ctx.kind == e.ctx.kind && x.ctx.rname == r_name && x.ctx.site == e.ctx.site && x.ctx.pos == e.ctx.pos);
+                    if let Some(cp) = cp {
+                        let fb = eb.iter().find(|x| x.kind == tb.0 && x.marker == tb.1 && x.name == e.target).map(|x| &x.fp);
+                        let fr = idx_r
+                            .resolve(cp.ctx.ns, &cp.target)
+                            .and_then(|v| v.first().copied())
+                            .and_then(|(k2, _)| er.iter().find(|x| x.kind == k2 && x.name == cp.target))
+                            .map(|x| &x.fp);
+                        rec.bump("edges.of_shared_twins_compared");
+                        if let (Some(fb), Some(fr)) = (fb, fr) {
+                            if fb != fr {
+                                rec.bump(&format!("shared_twin_retargeted.{}", e.ctx.site));
+                                rec.violation(
+                                    "reference held by a shared identical twin designates A's variant of B's target (the target differs between A and B)",
+                                    &format!(
+                                        "{} {} is identical in A and B and is shared; in B it referred at {} to {} {}, whose content differs from A's {}: after the merge the shared element reads `{}`, which designates `{}` instead of `{}`",
+                                        e.ctx.kind, e.ctx.rname, e.ctx.site, tb.0, e.target, e.target, cp.target, clip(fr, 200), clip(fb, 200)
+                                    ),
+                                    witness(&a0, &b0, ""),
+                                );
+                            }
+                        }
+                    }
+                }
                 continue;
             }
             // counterpart edge in R
